@@ -63,6 +63,11 @@ var errWrite = errors.New("verif: injected write error")
 
 func (c *conn) ReadFrom(b []byte) (int, net.Addr, error) { <-c.closed; return 0, nil, net.ErrClosed }
 func (c *conn) WriteTo(b []byte, addr net.Addr) (int, error) {
+	select {
+	case <-c.closed:
+		return 0, net.ErrClosed // a closed session's connection refuses writes, like a socket
+	default:
+	}
 	// echo request?  ether(14) + ip4(20) + icmp  |  ether(14) + ip6(40) + icmp
 	var icmp []byte
 	switch {
@@ -204,9 +209,17 @@ func echoMsg(t byte, id uint16, n int) []byte {
 //   u<k>                 some other ICMP type (destination unreachable) carrying k's id bytes
 //   t                    dump icmpTable
 //   j                    wait for every thread to return
+// several sessions (ping.mtrace lines; session 0 is the long-lived one, sessions 1.. are created on first use with
+// their own connection and share the process-global icmpTable with it):
+//   <step>@<j>           the step on session j: p…@j = the call is made on session j, e/E/y/f/q/m/u…@j = the frame is
+//                        handed to session j's Parse
+//   x<j> | X<j>          Session.Close of session j (j >= 1), sync | async; waits first until every call already made
+//                        on j has written its request (Close sleeps one second)
+//   n<id>                (first step only) the package-level identifier counter is set to id before the scenario
 
 type thread struct {
 	kind    string
+	sess    int           // the session the call is made on
 	req     time.Duration // the timeout argument of the call
 	tmo     time.Duration // the effective timeout (effTimeout(req))
 	callAt  time.Duration
@@ -232,6 +245,8 @@ func runScenario(scn string) (obs []event, threads map[int]*thread, injs []*inje
 	id0 = packet.VerifICMPNextID()
 	threads = map[int]*thread{}
 	var wg sync.WaitGroup
+	mss := newMulti(l)
+	defer mss.stopAll()
 	var injMu sync.Mutex
 	nInj := 0
 	waitID := func(k int) (uint16, bool) {
@@ -255,7 +270,8 @@ func runScenario(scn string) (obs []event, threads map[int]*thread, injs []*inje
 		defer l.mu.Unlock()
 		return l.idOf[k], true
 	}
-	inject := func(fr []byte, id uint16, echo bool, async bool) {
+	inject := func(fr []byte, id uint16, echo bool, async bool, j int) {
+		sx := mss.get(j)
 		injMu.Lock()
 		k := nInj
 		nInj++
@@ -267,12 +283,13 @@ func runScenario(scn string) (obs []event, threads map[int]*thread, injs []*inje
 			if echo {
 				tok = fmt.Sprintf("i%d:%d", k, id)
 			}
+			tok += at(j)
 			l.mu.Lock()
 			in.startI = len(l.evs)
 			in.start = time.Since(l.t0)
 			l.evs = append(l.evs, event{tok, in.start})
 			l.mu.Unlock()
-			if core.Safely(func() string { session.Parse(fr); return "" }) == "panic" {
+			if core.Safely(func() string { sx.Parse(fr); return "" }) == "panic" {
 				l.mu.Lock()
 				if l.parsePanic == "" {
 					l.parsePanic = fmt.Sprintf("Session.Parse panicked on injected frame %d (ICMP %s)", k, core.Hex(fr[len(fr)-min(len(fr), 16):]))
@@ -308,16 +325,29 @@ func runScenario(scn string) (obs []event, threads map[int]*thread, injs []*inje
 			l.mu.Unlock()
 			return obs, threads, injs, id0, dumps, pp
 		}
+		st, sj := splitSess(st)
 		op, arg := st[0], st[1:]
 		switch op {
+		case 'x', 'X':
+			j, _ := strconv.Atoi(arg)
+			if j < 1 {
+				continue
+			}
+			for k, th := range threads { // every call already made on j has written its request (or failed to)
+				if th.sess == j {
+					waitID(k)
+				}
+			}
+			mss.close(j, op == 'X', &wg)
 		case 'p':
 			f := strings.Split(arg, ":")
 			if len(f) != 3 {
 				continue
 			}
+			sx := mss.get(sj)
 			k, _ := strconv.Atoi(f[0])
 			ms, _ := strconv.Atoi(f[2])
-			th := &thread{kind: f[1], req: time.Duration(ms) * time.Millisecond, tmo: effTimeout(time.Duration(ms) * time.Millisecond), done: make(chan struct{})}
+			th := &thread{kind: f[1], sess: sj, req: time.Duration(ms) * time.Millisecond, tmo: effTimeout(time.Duration(ms) * time.Millisecond), done: make(chan struct{})}
 			threads[k] = th
 			if f[1] == "w" {
 				l.mu.Lock()
@@ -326,18 +356,18 @@ func runScenario(scn string) (obs []event, threads map[int]*thread, injs []*inje
 			}
 			th.started = true
 			th.callAt = time.Since(l.t0)
-			l.add(fmt.Sprintf("c%d", k))
+			l.add(fmt.Sprintf("c%d", k) + at(sj))
 			wg.Add(1)
 			go func(k int, th *thread) {
 				defer wg.Done()
 				var err error
 				switch th.kind {
 				case "4", "w":
-					err = session.Ping(packet.Addr{MAC: peerMAC(k), IP: peerIP4(k)}, th.req)
+					err = sx.Ping(packet.Addr{MAC: peerMAC(k), IP: peerIP4(k)}, th.req)
 				case "6":
-					err = session.Ping6(packet.Addr{MAC: sess.HostMAC, IP: hostLLA}, packet.Addr{MAC: peerMAC(k), IP: peerIP6(k)}, th.req)
+					err = sx.Ping6(packet.Addr{MAC: sess.HostMAC, IP: hostLLA}, packet.Addr{MAC: peerMAC(k), IP: peerIP6(k)}, th.req)
 				case "b":
-					err = session.Ping(packet.Addr{MAC: peerMAC(k), IP: peerIP6(k)}, th.req)
+					err = sx.Ping(packet.Addr{MAC: peerMAC(k), IP: peerIP6(k)}, th.req)
 				}
 				r := "e"
 				switch {
@@ -396,7 +426,7 @@ func runScenario(scn string) (obs []event, threads map[int]*thread, injs []*inje
 			if v6 {
 				fr = frame6(k, msg)
 			}
-			inject(fr, id, echo, op == 'E')
+			inject(fr, id, echo, op == 'E', sj)
 		case 't':
 			// atomic observation of the table, placed in the log while the log lock is held
 			l.mu.Lock()
@@ -441,7 +471,10 @@ func scenarioBudget(scn string) time.Duration {
 		case 'w':
 			ms, _ := strconv.Atoi(st[1:])
 			d += time.Duration(ms) * time.Millisecond
+		case 'x', 'X':
+			d += 1500 * time.Millisecond // Close sleeps one second
 		case 'p':
+			st, _ = splitSess(st)
 			if f := strings.Split(st[1:], ":"); len(f) == 3 {
 				ms, _ := strconv.Atoi(f[2])
 				d += effTimeout(time.Duration(ms) * time.Millisecond)
@@ -460,6 +493,7 @@ func oracle(obs []event, threads map[int]*thread, injs []*injection, dumps []str
 	retIdx := map[int]int{}
 	callIdx := map[int]int{}
 	for i, e := range obs {
+		e.tok, _ = splitSess(e.tok)
 		if e.tok[0] == 'c' {
 			p, _ := strconv.Atoi(e.tok[1:])
 			callIdx[p] = i
@@ -584,8 +618,19 @@ func evalTrace(c *core.Ctx, line string) *core.Case {
 		pp      string
 	}
 	ch := make(chan result, 1)
+	multi := strings.HasPrefix(line, "ping.mtrace ")
+	cmd := "ping.trace"
+	if multi {
+		cmd = "ping.mtrace"
+	}
 	go func() {
-		packet.VerifICMPReset(packet.VerifICMPNextID()) // start from an empty table, keep the counter
+		next := packet.VerifICMPNextID() // start from an empty table, keep the counter …
+		if multi && strings.HasPrefix(scn, "n") {
+			if v, err := strconv.Atoi(strings.SplitN(scn[1:], ",", 2)[0]); err == nil {
+				next = uint16(v) // … unless the scenario starts near the wrap of the uint16 counter
+			}
+		}
+		packet.VerifICMPReset(next)
 		var r result
 		r.obs, r.threads, r.injs, r.id0, r.dumps, r.pp = runScenario(scn)
 		ch <- r
@@ -597,14 +642,17 @@ func evalTrace(c *core.Ctx, line string) *core.Case {
 		// the scenario did not come back: a ping, a table dump or Parse waits for icmpTable's mutex for ever
 		wedged = true
 		what := fmt.Sprintf("scenario blocked for more than %v (icmpTable left locked? a Ping, Parse or the table dump never returned)", scenarioBudget(scn))
-		return &core.Case{Line: "ping.trace 0 scn=" + scn, Impl: "hang", Trivial: false,
+		return &core.Case{Line: cmd + " 0 scn=" + scn, Impl: "hang", Trivial: false,
 			Oracle: func() (string, string) { return what, "" }}
 	}
 	toks := make([]string, len(r.obs))
 	for i, e := range r.obs {
 		toks[i] = e.tok
 	}
-	nl := fmt.Sprintf("ping.trace %d scn=%s %s", r.id0, scn, strings.Join(toks, " "))
+	if multi {
+		toks = withDeadlines(r.obs, r.threads)
+	}
+	nl := fmt.Sprintf("%s %d scn=%s %s", cmd, r.id0, scn, strings.Join(toks, " "))
 	if r.pp != "" {
 		wedged = true
 		return &core.Case{Line: nl, Impl: "panic", Trivial: false,
@@ -713,7 +761,7 @@ func Eval(c *core.Ctx, line string) *core.Case {
 	switch {
 	case strings.HasPrefix(line, "ping.eff "):
 		return evalEff(c, line)
-	case strings.HasPrefix(line, "ping.trace "):
+	case strings.HasPrefix(line, "ping.trace "), strings.HasPrefix(line, "ping.mtrace "):
 		return evalTrace(c, line)
 	case strings.HasPrefix(line, "ping.cls "):
 		return evalCls(c, line)
@@ -772,7 +820,7 @@ func genScenario(c *core.Ctx, n int) string {
 
 // Gen is the C19 correspondence run.
 func Gen(c *core.Ctx) {
-	c.Res.Rule = "ping.trace: real-time scenarios of up to 5 concurrent Ping/Ping6 calls (timeouts 30–80 ms and arguments outside (0, 10 s] for which the 2 s default applies; incl. calls whose send fails) with matching / other-family / foreign / duplicate / request / truncated / other-type ICMP injected through Session.Parse before and after the timeout, icmpTable dumped; the observed event log must be accepted by the Lean ping machine and satisfy the Go-side oracle.  ping.eff: the effective timeout of the model against the harness's mirror, to which the trace oracle holds the implementation.  ping.cls: ICMP messages (all types, lengths 0..16, id bytes) through Parse with probe waiters registered.  non-trivial = scenario with at least one call / message of at least 8 bytes"
+	c.Res.Rule = multiRule + "ping.trace: real-time scenarios of up to 5 concurrent Ping/Ping6 calls (timeouts 30–80 ms and arguments outside (0, 10 s] for which the 2 s default applies; incl. calls whose send fails) with matching / other-family / foreign / duplicate / request / truncated / other-type ICMP injected through Session.Parse before and after the timeout, icmpTable dumped; the observed event log must be accepted by the Lean ping machine and satisfy the Go-side oracle.  ping.eff: the effective timeout of the model against the harness's mirror, to which the trace oracle holds the implementation.  ping.cls: ICMP messages (all types, lengths 0..16, id bytes) through Parse with probe waiters registered.  non-trivial = scenario with at least one call / message of at least 8 bytes"
 	for _, l := range c.CorpusLines() {
 		add(c, "corpus", l)
 	}
@@ -826,6 +874,7 @@ func Gen(c *core.Ctx) {
 	for i := 0; i < n; i++ {
 		add(c, "random", "ping.trace 0 scn="+genScenario(c, 2+c.Rnd.Intn(4)))
 	}
+	n += genMulti(c)
 	c.Res.Extra["traces_validated_against_impl"] = n + 28
 }
 
